@@ -59,7 +59,7 @@ var properties = map[string]propSpec{
 	"C13": {Rules: rl{ruleRelaySync, ruleAcceptedPerforms, ruleNotifyGated, ruleSenderExcluded, ruleSubscriptions, ruleLeaveComplete, ruleArgRoles, ruleBroadcastShape, ruleGuardedBy}, Keep: kp{"C6", "B9", "C5", "C2", "S-", "E1", "B10", "C3", "F1"}, Sites: map[string][]string{"F1": {"EntityComponentStore.subscriptions"}}},
 	"C14": {Rules: rl{rulePairedState, ruleBroadcastShape, ruleSenderExcluded, ruleCustomMessage, ruleRelaySync, ruleGuardedBy, ruleMembershipContracts}, Keep: kp{"E9", "C3", "J6", "C2", "H1", "H4", "C6", "F1", "S-Members"}, Sites: map[string][]string{"F1": {"Session."}}},
 	"C15": {Rules: rl{ruleAuthGate}, Keep: kp{"I6"}},
-	"C16": {Rules: rl{ruleEntityActions, ruleSnapshot, ruleOwnerGuard, ruleModuleInit, ruleModuleCleanup, ruleRelaySync}, Keep: kp{"H3", "S-", "D5", "C7", "D1", "J4", "J3", "E3", "C6"}},
+	"C16": {Rules: rl{ruleEntityActions, ruleSnapshot, ruleOwnerGuard, ruleModuleInit, ruleModuleCleanup, ruleRelaySync, ruleLeaveComplete}, Keep: kp{"H3", "S-", "D5", "C7", "D1", "J4", "J3", "E3", "C6", "E1"}, Sites: map[string][]string{"E1": {"entity-loop", "modules-told"}}},
 	"C17": {Rules: rl{ruleFlagWrap}},
 	"C18": {Rules: rl{ruleLatencyStart, ruleLatencyReport, ruleMapOrderFree, ruleAnswers}, Keep: kp{"H2", "I1", "I2", "I3", "I4", "B1", "B2", "B4", "B7"}, Sites: map[string][]string{"B": {"HandleSignedLatency", "HandlePingResponse"}}},
 	"C19": {Rules: rl{ruleReceiptFlow, ruleAnswers, ruleRelaySync}, Keep: kp{"I5", "B1", "B2", "B4", "C6"}, Sites: map[string][]string{"B": {"HandleReceipt"}}},
